@@ -73,6 +73,7 @@ const (
 	tPathY          // Path {"y": "s"}
 	tGetXYZ         // GET /a/{x}/{y}/z : a method with its own, longer path
 	tURLParam2      // URL /a/{x}/{y}
+	tGetNm          // GET /l/{nm}/x : same first segment as URL /l/{id}, another parameter name
 )
 
 var verifTplNames = []string{"JSIGHT", "INFO", "Title", "Version", "SERVER", "BaseUrl", "URL", "GET", "POST", "GET /p", "Request any",
@@ -95,7 +96,7 @@ func verifLetter(name string) string {
 func verifLine(t int) (string, string) {
 	l := ""
 	switch t {
-	case tServer, tURL, tGetPath, tTypeAny, tMacro, tPaste, tTag, tTags, tMethod, tDescription, tEnum, tTypeObj, tTypeAllOf, tRespRef, tURLParam, tTypeNested, tRespArr:
+	case tServer, tURL, tGetPath, tTypeAny, tMacro, tPaste, tTag, tTags, tMethod, tDescription, tEnum, tTypeObj, tTypeAllOf, tRespRef, tURLParam, tTypeNested, tRespArr, tResult, tGetNm:
 		l = verifLetter("l")
 	}
 	return verifLineWith(t, l), l
@@ -215,6 +216,8 @@ func verifLineWith(t int, l string) string {
 		return "GET /a/{x}/{y}/z"
 	case tURLParam2:
 		return "URL /a/{x}/{y}"
+	case tGetNm:
+		return "GET /" + l + "/{nm}/x"
 	case tParams:
 		return "Params\n{\"p\": 1}"
 	case tResult:
@@ -612,6 +615,15 @@ func VerifH_CatalogStructure() {
 	})
 	verifrt.Reach("C19.doc.url-and-method-tags", nTags >= 2 && n >= 1)
 	verifrt.Reach("C04.structure.accepted-with-interaction", n >= 1)
+	if verifrt.Bound("MENU") == 5 {
+		hasResult := false
+		for _, ln := range lines {
+			if ln.t == tResult {
+				hasResult = true
+			}
+		}
+		verifrt.Reach("C04.structure.accepted-rpc-with-result", hasResult)
+	}
 	verifrt.Reach("C04.structure.accepted", true)
 }
 
